@@ -200,6 +200,16 @@ def frameNat : CDSFrame → Nat
 
 def startFrameNat (t : Tx) : Nat := (startFrame t).elim 0 frameNat
 
+/-- length of the 5'-most CDS block -/
+def firstCdsLen (t : Tx) : Nat :=
+  match t.strand with
+  | .minus => (t.cds.getLast?.map Blk.len).getD 0
+  | _ => (t.cds.head?.map Blk.len).getD 0
+
+/-- the start frame can be expressed per block: the skipped bases lie inside the 5'-most block (C05's T4 has the
+    same guard; a 1-base first block with start frame 2 has no frame list that means "skip two bases") -/
+def Tx.frameFits (t : Tx) : Bool := t.cds.length ≤ 1 || decide (startFrameNat t ≤ firstCdsLen t)
+
 /-! ### qualifiers -/
 
 def qualGet (k : Str) : QDict → List Str
@@ -328,21 +338,11 @@ def okFramesOf (st : Strand) (cds : List Blk) (f : Nat) (frames : List CDSFrame)
     independent reader cannot reproduce its translation) -/
 def Tx.oneFrame (t : Tx) : Bool := okFramesOf t.strand t.cds (startFrameNat t) t.frames
 
-/-- the CDS record(s) of a transcript: type, blocks, strand, ids; then reading frame and translation -/
-def cdsClauses (fl : Flavor) (trans : Bool) (seq : Option Str) (ans : List Rec) (g : Gene) (t : Tx) : List String :=
-  let ids := txIds g t ++ [(kProteinId, set? t.proteinId)]
-  let hits := ans.filter fun r => r.type == sCDS && r.strand == t.strand && sameBlocks r.parts t.cds && idsOk r.quals ids
-  match hits with
-  | [] => [s!"cds.{recordStage ans sCDS t.strand t.cds ids}"]
-  | r :: _ =>
-    (if readerFrame r == some (startFrameNat t) then [] else [s!"codon_start{cdsClass t}"]) ++
-    (match trans, seq with
-     | true, some s => if !t.oneFrame || okTranslationOf fl s r then [] else [s!"translation{cdsClass t}"]
-     -- not requested: a /translation the source carried as a qualifier passes through (documented: "calculated or
-     -- re-calculated" only on request)
-     | _, _ => [])
+def cdsIds (g : Gene) (t : Tx) : List (Str × Option Str) := txIds g t ++ [(kProteinId, set? t.proteinId)]
 
-def geneClauses (fl : Flavor) (trans : Bool) (seq : Option Str) (ans : List Rec) (g : Gene) : List String :=
+/-- STRUCTURAL clauses of one gene: a `gene` record, a transcript-level record per transcript (not for a coding
+    transcript in prokaryotic flavour), a `CDS` record per coding transcript — type, blocks, strand, identifiers -/
+def geneStructClauses (fl : Flavor) (ans : List Rec) (g : Gene) : List String :=
   match g.txs.head?, geneSpan g with
   | some t0, some sp =>
     need ans "gene" sGene t0.strand [sp]
@@ -350,8 +350,33 @@ def geneClauses (fl : Flavor) (trans : Bool) (seq : Option Str) (ans : List Rec)
     g.txs.flatMap fun t =>
       (if txFeatureType t == sMRNA && fl == .prokaryotic then []
        else need ans "transcript" (txFeatureType t) t.strand t.exons (txIds g t)) ++
-      (if t.writesCds then cdsClauses fl trans seq ans g t else [])
+      (if t.writesCds then need ans "cds" sCDS t.strand t.cds (cdsIds g t) else [])
   | _, _ => ["gene.empty"]
+
+/-- the CDS records that stand for transcript `t` -/
+def cdsHits (ans : List Rec) (g : Gene) (t : Tx) : List Rec :=
+  ans.filter fun r => r.type == sCDS && r.strand == t.strand && sameBlocks r.parts t.cds && idsOk r.quals (cdsIds g t)
+
+/-- READER clauses of one CDS record: the reading frame an independent reader assumes is the source's start frame;
+    a requested translation is the reader's translation -/
+def cdsReaderClauses (fl : Flavor) (trans : Bool) (seq : Option Str) (t : Tx) (r : Rec) : List String :=
+  (if readerFrame r == some (startFrameNat t) then [] else [s!"codon_start{cdsClass t}"]) ++
+  (match trans, seq with
+   | true, some s => if !t.oneFrame || okTranslationOf fl s r then [] else [s!"translation{cdsClass t}"]
+   -- not requested: a /translation the source carried as a qualifier passes through (documented: "calculated or
+   -- re-calculated" only on request)
+   | _, _ => [])
+
+def geneReaderClauses (fl : Flavor) (trans : Bool) (seq : Option Str) (ans : List Rec) (g : Gene) : List String :=
+  g.txs.flatMap fun t =>
+    if t.writesCds then
+      match cdsHits ans g t with
+      | r :: _ => cdsReaderClauses fl trans seq t r
+      | [] => []
+    else []
+
+def geneClauses (fl : Flavor) (trans : Bool) (seq : Option Str) (ans : List Rec) (g : Gene) : List String :=
+  geneStructClauses fl ans g ++ geneReaderClauses fl trans seq ans g
 
 def fcClauses (ans : List Rec) (f : FColl) : List String :=
   match f.feats.head?, fcSpan f with
@@ -444,7 +469,7 @@ def rtDomain (fl : Flavor) (m : Mode) (c : Coll) : Bool :=
     g.txs.all fun t =>
       plainId t.txId && plainId t.proteinId &&
       -- a coding transcript whose biotype is an RNA key has no CDS record: outside the claim
-      (t.coding → t.writesCds) &&
+      (t.coding → t.writesCds) && t.frameFits &&
       (match spanOf t.exons, spanOf t.cds with
        | some e, some k => decide (e.1 ≤ k.1) && decide (k.2 ≤ e.2)
        | _, _ => true)) &&
